@@ -49,10 +49,32 @@ OPTS_ALL = [dict(post_check=a, compress=b, delete_original=c) for a in (True, Fa
 class ConvModel(object):
     depth_now = 0
 
-    def __init__(self, kind, tier, source="bin"):
+    def __init__(self, kind, tier, source="bin", apbase=None):
         self.kind = kind
         self.tier = tier
         self.source = source
+        self.apbase = apbase or (np2.STEM + ".ap")       # name of the original AP file without its suffix
+
+    def _band_file(self, folder, band):
+        """the data file of a band in a folder, found through the metadata (snsApLfSy), not through its name"""
+        if not os.path.isdir(folder):
+            return None
+        for fn in sorted(os.listdir(folder)):
+            if not fn.endswith(".meta"):
+                continue
+            try:
+                txt = open(os.path.join(folder, fn)).read()
+                counts = [int(float(t)) for t in [ln for ln in txt.splitlines() if ln.startswith("snsApLfSy=")][0].split("=", 1)[1].split(",")]
+            except Exception:
+                continue
+            b = "ap" if counts[0] != 0 else "lf"
+            if b != band:
+                continue
+            for suf in (".bin", ".cbin"):
+                g = os.path.join(folder, fn[:-5] + suf)
+                if os.path.exists(g):
+                    return g
+        return None
 
     @staticmethod
     def info_key(info):
@@ -64,6 +86,10 @@ class ConvModel(object):
         np2.clean(root)
         kind = {"NP1": "3B2"}.get(self.kind, self.kind)
         ap = np2.make_session(root, kind, _sites(self.kind), _data())
+        if self.apbase != np2.STEM + ".ap":
+            for suf in (".bin", ".meta"):
+                os.rename(str(ap.with_suffix(suf)), os.path.join(os.path.dirname(str(ap)), self.apbase + suf))
+            ap = ap.with_name(self.apbase + ".bin")
         if self.source == "cbin":
             sr = spikeglx.Reader(ap)
             sr.compress_file(keep_original=False)
@@ -74,7 +100,7 @@ class ConvModel(object):
             items = synth.meta_items(kind, _sites(self.kind), NS - 100)
             open(fm, "w").write(synth.meta_text(items))
         snap = histories.snapshot(root)
-        meta = open(os.path.join(root, np2.LABEL, np2.STEM + ".ap.meta"), "rb").read()
+        meta = open(os.path.join(root, np2.LABEL, self.apbase + ".meta"), "rb").read()
         info = dict(kind=self.kind, completed=False, orig_meta_sha=histories.hashlib.sha1(meta).hexdigest())
         return [(snap, info)]
 
@@ -101,15 +127,15 @@ class ConvModel(object):
     def _target(self, root, event):
         pdir = os.path.join(root, np2.LABEL)
         if event["target"] == "orig":
-            for suf in (".ap.bin", ".ap.cbin"):
-                f = os.path.join(pdir, np2.STEM + suf)
+            for suf in (".bin", ".cbin"):
+                f = os.path.join(pdir, self.apbase + suf)
                 if os.path.exists(f):
                     return f
             return None
         for sh in range(4):
-            for suf in (".ap.bin", ".ap.cbin"):
-                f = os.path.join(np2.shank_folder(root, sh), np2.STEM + suf)
-                if os.path.exists(f) and os.path.exists(os.path.join(np2.shank_folder(root, sh), np2.STEM + ".ap.meta")) and os.path.getsize(f) > 0:
+            for suf in (".bin", ".cbin"):
+                f = os.path.join(np2.shank_folder(root, sh), self.apbase + suf)
+                if os.path.exists(f) and os.path.exists(os.path.join(np2.shank_folder(root, sh), self.apbase + ".meta")) and os.path.getsize(f) > 0:
                     if suf.endswith("cbin") and not os.path.exists(f.replace(".cbin", ".ch")):
                         continue
                     return f
@@ -174,8 +200,8 @@ class ConvModel(object):
 
     def _shank_content(self, root, sh, ncols):
         folder = np2.shank_folder(root, sh)
-        for suf in (".ap.bin", ".ap.cbin"):
-            f = os.path.join(folder, np2.STEM + suf)
+        for suf in (".bin", ".cbin"):
+            f = os.path.join(folder, self.apbase + suf)
             if os.path.exists(f):
                 a = self._read_ap(f)
                 if a is None:
@@ -192,11 +218,11 @@ class ConvModel(object):
         v = []
         data = _data()
         pdir = os.path.join(root, np2.LABEL)
-        fmeta = os.path.join(pdir, np2.STEM + ".ap.meta")
+        fmeta = os.path.join(pdir, self.apbase + ".meta")
         if not os.path.exists(fmeta) or histories.hashlib.sha1(open(fmeta, "rb").read()).hexdigest() != info["orig_meta_sha"]:
             v.append(("I1:original-meta", "the original metadata file is missing or modified"))
-        fbin = os.path.join(pdir, np2.STEM + ".ap.bin")
-        fcbin = os.path.join(pdir, np2.STEM + ".ap.cbin")
+        fbin = os.path.join(pdir, self.apbase + ".bin")
+        fcbin = os.path.join(pdir, self.apbase + ".cbin")
         ok = False
         have_orig = False
         if os.path.exists(fbin):
@@ -235,12 +261,7 @@ class ConvModel(object):
                 cols = [i for i, s in enumerate(sites) if s[0] == sh] + [data.shape[1] - 1]
                 folder = np2.shank_folder(root, sh)
                 for band, exp_shape in (("ap", (NS, len(cols))), ("lf", (nlf, len(cols)))):
-                    f = None
-                    for suf in (".bin", ".cbin"):
-                        g = os.path.join(folder, "%s.%s%s" % (np2.STEM, band, suf))
-                        if os.path.exists(g):
-                            f = g
-                            break
+                    f = self._band_file(folder, band)
                     if f is None:
                         prob.append("shank %d: no %s data file" % (sh, band))
                         continue
@@ -264,12 +285,7 @@ class ConvModel(object):
                         prob.append("shank %d: lf sync column is not the decimated sync" % sh)
         else:
             pdir = os.path.join(root, np2.LABEL)
-            f = None
-            for suf in (".bin", ".cbin"):
-                g = os.path.join(pdir, np2.STEM + ".lf" + suf)
-                if os.path.exists(g):
-                    f = g
-                    break
+            f = self._band_file(pdir, "lf")
             if f is None:
                 prob.append("no lf file")
             else:
@@ -382,7 +398,10 @@ def _evstr(e):
         e["target"], e["overwrite"], e["post_check"], e["compress"], e["delete_original"], "" if e.get("again") is None else ", then again overwrite=%s" % e["again"])
 
 
-def _mk(kind, source="bin"):
+ODD_NAMES = ("m1_g0_t0_ap", "trap_g0_t0.imec0.ap")     # no ".ap." component / "ap" also elsewhere in the run name
+
+
+def _mk(kind, source="bin", apbase=None):
     def run(tier, seed, jobs):
         # (history length, crash budget, frontier cap per level)
         if tier == "quick":
@@ -392,10 +411,12 @@ def _mk(kind, source="bin"):
         else:
             depth, faults_, cap = {("NP2.4", "bin"): (3, 2, 150), ("NP2.4", "cbin"): (2, 2, 150), ("NP2.4", "meta-shorter"): (2, 1, 150),
                                    ("NP2.1", "bin"): (3, 2, 200)}.get((kind, source), (2, 1, None))
-        model = ConvModel(kind, tier, source)
+        model = ConvModel(kind, tier, source, apbase)
         if kind == "NP1":
             depth, faults_, cap = 2, 1, None
-        return histories.bfs(model, "histories-%s%s" % (kind, "" if source == "bin" else "-" + source), tier, jobs, depth, faults_, cap_states=cap)
+        if apbase:
+            depth, faults_ = (2, 0) if tier == "quick" else (2, 1)
+        return histories.bfs(model, "histories-%s%s%s" % (kind, "" if source == "bin" else "-" + source, "@" + apbase if apbase else ""), tier, jobs, depth, faults_, cap_states=cap)
     return run
 
 
@@ -404,12 +425,15 @@ def _replay(case):
     from mc.engine import Res
     name = case["model"]
     kind = name.replace("histories-", "")
+    apbase = None
+    if "@" in kind:
+        kind, apbase = kind.split("@", 1)
     source = "bin"
     if kind.endswith("-cbin"):
         kind, source = kind[:-5], "cbin"
     if kind.endswith("-meta-shorter"):
         kind, source = kind[:-13], "meta-shorter"
-    model = ConvModel(kind, "thorough", source)
+    model = ConvModel(kind, "thorough", source, apbase)
     (snap, info), = model.initial()
     root = os.path.join(synth.proc_scratch(), "c04_replay")
     viol = []
@@ -451,6 +475,10 @@ CHECK = {
         Clause("histories-NP2.4-cbin", "BFS over run histories, NP2.4 from a compressed original", run=_mk("NP2.4", "cbin"), replay=_replay),
         Clause("histories-NP2.4-meta-shorter", "BFS over run histories, NP2.4 whose binary holds more samples than its metadata declares", run=_mk("NP2.4", "meta-shorter"), replay=_replay),
         Clause("histories-NP2.1", "BFS over run histories, NP2.1", run=_mk("NP2.1"), replay=_replay),
+        Clause("histories-NP2.1@" + ODD_NAMES[0], "NP2.1 whose file name has no '.ap.' component", run=_mk("NP2.1", "bin", ODD_NAMES[0]), replay=_replay),
+        Clause("histories-NP2.4@" + ODD_NAMES[0], "NP2.4 whose file name has no '.ap.' component", run=_mk("NP2.4", "bin", ODD_NAMES[0]), replay=_replay),
+        Clause("histories-NP2.1@" + ODD_NAMES[1], "NP2.1 whose run name contains 'ap'", run=_mk("NP2.1", "bin", ODD_NAMES[1]), replay=_replay),
+        Clause("histories-NP2.4@" + ODD_NAMES[1], "NP2.4 whose run name contains 'ap'", run=_mk("NP2.4", "bin", ODD_NAMES[1]), replay=_replay),
         Clause("histories-NP1", "NP1 recordings are refused and untouched", run=_mk("NP1"), replay=_replay),
     ],
 }
